@@ -5,13 +5,12 @@
    (2) The history half (permuted / interleaved operations in one interpreter vs fresh interpreters, hash seeds, working
    directories, JSON vs YAML) exists only on the implementation side and is decided by the differential check. *)
 Require Import Coq.Strings.String.
-From Verif Require Import Base.Prim Base.Str Cbor.Codec Suit.Py Suit.Ty Suit.Interp Suit.Files Cmd.StateModel Cmd.State gen.GenTypes gen.GenState.
+From Verif Require Import Base.Prim Base.Str Cbor.Codec Suit.Py Suit.Ty Suit.Interp Suit.Files Cmd.StateModel Cmd.State Cmd.StateSound gen.GenTypes gen.GenState.
 Open Scope Z_scope.
 
 (* every operation on a signer / encryptor / recursive signer / cache / envelope object writes each attribute before it
    reads it — on the read/write programs EXTRACTED from the source (calls inlined, branches intersected) *)
-Definition reads_before_writes (e : bytes * list (bytes * list ev) * list ev) : list bytes :=
-  fst (scan (snd (fst e)) 40 (snd e) []).
+Notation reads_before_writes e := (fst (scan (snd (fst e)) 40%nat (snd e) [])).
 
 Theorem no_stale_object_state : forallb (fun e => match reads_before_writes e with [] => true | _ => false end) entry_programs = true.
 Proof. vm_compute. reflexivity. Qed.
@@ -34,6 +33,19 @@ Theorem call_state_independent V compute p s s' :
   definite p [] = true -> run V compute p O s [] = run V compute p O s' [].
 Proof. exact (State.call_state_independent V compute p s s'). Qed.
 Print Assumptions call_state_independent.
+
+(* the scan is SOUND for all paths (Cmd/StateSound.v): every trace of every extracted entry program — any choice of branches,
+   any number of loop iterations, calls inlined — observes nothing of the state that earlier calls left on the object *)
+Theorem every_path_is_state_independent :
+  forall e, In e entry_programs -> forall tr, trace (snd (fst e)) (snd e) tr ->
+  forall V compute s s', run V compute tr O s [] = run V compute tr O s' [].
+Proof. exact (all_clean_independent entry_programs 40 no_stale_object_state). Qed.
+Print Assumptions every_path_is_state_independent.
+
+(* non-vacuity: every extracted entry program has a trace, and at least one has a trace that reads *)
+Example entry_programs_have_traces :
+  forallb (fun e => match some_trace (snd (fst e)) 40 (snd e) with Some _ => true | None => false end) entry_programs = true.
+Proof. vm_compute. reflexivity. Qed.
 
 (* create fills digests into the caller's description in place: creating again from the filled description parses to the
    same digest object (the first alternative now accepts what the second one computed) — file form *)
